@@ -220,6 +220,7 @@ def run(ck, F, tier):
     ck.rule("T6", "every arithmetic named is one of the impls of DecoderArithmetic")
     ck.rule("T7", "c_api and cli obtain a DecoderImplementation only by str::parse / clap ValueEnum and build "
                   "only through DecoderFactory::build_decoder")
+    ck.rule("T8", "the trait object behaves like the generic decoder: LdpcDecoder::decode forwards (self, llrs, max_iterations) unchanged")
     ck.trust("rustc nightly HIR/MIR of /repo (type-checked with the repository's Cargo.lock)")
     ck.trust("match semantics: first matching arm wins; string patterns compare by equality")
 
@@ -381,6 +382,9 @@ def run(ck, F, tier):
             and len(dn.params) >= 2 and local_name(parses[0]["recv"]) == dn.params[1].get("name"),
             dn.span, "C constructor parses its `implementation` argument with FromStr (%d parse calls)" % len(parses))
     ck.floor("T7", "factory call sites", n7, 2)
+    # T8: what the factory returns is used through LdpcDecoder::decode, which must forward to the generic decoder unchanged
+    from .c01 import forwarding_rule
+    forwarding_rule(ck, F, "T8")
 
 
 def selftest(C):
